@@ -76,6 +76,7 @@ def run(prog, res):
 def _w7_structure(prog, res):
   fn = prog.function(R + '._get_rtl_structure')
   res.analysed(fn)
+  _index_counter(prog, res)
   loop = None
   for n in ast.walk(fn.node):
     if isinstance(n, ast.For) and dotted(n.iter) == 'lattices' and dotted(
@@ -181,6 +182,78 @@ def _w7_structure(prog, res):
             "'increasing' inputs get monotonicity 1, 'unconstrained' 0",
             'input keys map to monotonicities %s, expected increasing->1, '
             'unconstrained->0' % m)
+
+
+def _index_counter(prog, res):
+  """W7 (index counter): _get_rtl_structure numbers the flattened input
+  columns with a running counter.  Every _RTLInput takes the next column: the
+  counter advances by exactly as many columns as were handed out - `+= 1`
+  next to an append in the per-unit loop, or `+= n` after a comprehension
+  over range(n) that uses `counter + k`.  An advance that does not match
+  makes the indices of multi-unit inputs overlap (all in range, nothing
+  crashes; columns are gathered twice or never)."""
+  fn = prog.function('rtl_layer.RTL._get_rtl_structure')
+  sites = [c for c in ast.walk(fn.node) if isinstance(c, ast.Call) and
+           dotted(c.func) == '_RTLInput']
+  if not sites:
+    raise AnalysisError('_get_rtl_structure: _RTLInput(...) not found')
+  for i, c in enumerate(sites):
+    kw = {k.arg: k.value for k in c.keywords}
+    e = kw.get('input_index')
+    if e is None:
+      raise AnalysisError('_get_rtl_structure: _RTLInput without input_index')
+    counter = None
+    offset = None
+    if isinstance(e, ast.Name):
+      counter = e.id
+    elif isinstance(e, ast.BinOp) and isinstance(e.op, ast.Add) and \
+        isinstance(e.left, ast.Name) and isinstance(e.right, ast.Name):
+      counter, offset = e.left.id, e.right.id
+    elif isinstance(e, ast.Call) and dotted(e.func) == 'len':
+      continue      # len(rtl_inputs): self-counting, nothing to advance
+    else:
+      raise AnalysisError('_get_rtl_structure: input_index=%s not '
+                          'understood' % norm_text(e))
+    # how many are handed out per execution of the enclosing statement
+    per = None
+    comp = None
+    for n in ast.walk(fn.node):
+      if isinstance(n, (ast.GeneratorExp, ast.ListComp)) and any(
+          x is c for x in ast.walk(n)):
+        comp = n
+    incs = [a for a in ast.walk(fn.node) if isinstance(a, ast.AugAssign) and
+            isinstance(a.op, ast.Add) and dotted(a.target) == counter]
+    if len(incs) != 1:
+      raise AnalysisError('_get_rtl_structure: %d advances of %s' % (
+          len(incs), counter))
+    inc = incs[0]
+    if comp is None:
+      # append inside a loop body: advance by one in the same body
+      loops = [l for l in ast.walk(fn.node) if isinstance(l, ast.For) and any(
+          x is c for st in l.body for x in ast.walk(st))]
+      inner = loops[-1] if loops else None
+      good = offset is None and const_value(inc.value, None) == 1 and \
+          inner is not None and any(st is inc for st in inner.body)
+      why = 'one column per append, advance %s in %s' % (
+          norm_text(inc.value), 'the same loop' if inner is not None and any(
+              st is inc for st in inner.body) else 'another block')
+    else:
+      g = comp.generators[0]
+      n_text = norm_text(g.iter.args[0]) if isinstance(
+          g.iter, ast.Call) and dotted(g.iter.func) == 'range' and len(
+              g.iter.args) == 1 else None
+      good = offset is not None and dotted(g.target) == offset and \
+          n_text is not None and norm_text(inc.value) == n_text
+      why = '%s columns per comprehension, advance %s' % (
+          n_text, norm_text(inc.value))
+    res.check(good, 'W7', 'rtl_layer.RTL._get_rtl_structure|index-counter%s'
+              % ('#%d' % (i + 1) if i else ''), fn.loc(c),
+              'the column counter advances by the number of columns handed '
+              'out (%s)' % why,
+              'the column counter `%s` does not advance by the number of '
+              'columns handed out (%s): indices of multi-unit inputs overlap '
+              'and no longer match the concatenation in call()' % (counter,
+                                                                  why))
 
 
 def _sorted_keys_loop(fn, arg):
